@@ -663,6 +663,23 @@ def c19(rep, W, ctx, rule="C19"):
         return
     base = json.load(open(BASELINE))
     rep.ob(rule + ".FILE", ("database-file-name",), cur["file"] == base["file"], "database file %r; pinned release wrote %r" % (cur["file"], base["file"]))
+    # .. and that path itself is what every connection opens: plain `Connection::open(<the path>)` (no URI string built from it,
+    # no open flags: a `file:` URI is parsed -- `#`, `?`, `%xx` in a directory name then name another file)
+    nopen = 0
+    for b in W.prog.bodies.values():
+        if b.unit != WD.SQLITE + "-lib":
+            continue
+        pvb = W.prov(b)
+        for bb, t in b.calls():
+            d = t["callee"].get("def", "")
+            if d.startswith("rusqlite::Connection::open"):
+                nopen += 1
+                a0 = pvb.arg_terms(bb)[0] if pvb.arg_terms(bb) else ("unknown",)
+                okp = d == "rusqlite::Connection::open" and (m(("field", ("param", 1, ANY), ANY), a0) is not None or
+                                                              (a0[0] == "call" and a0[1].endswith("Path::join") and H.const_str(a0[3][1]) == cur["file"]))
+                rep.ob(rule + ".FILE", (S.short_fn(b), "opens-the-path-itself", S.ordinal_key(b, d, bb)), okp,
+                       "%s(%s); must be Connection::open(<the stored database path>)" % (d.split("::")[-1], P.show(a0)[:100]), where(b, bb), nontrivial=False)
+    rep.floor(rule + ".FILE", "Connection::open sites", nopen, 1)
     # SCHEMA: every (table, column) the current statements touch exists in the baseline schema with the same declared type
     ss, un, uc, inst = S.sql_world(W)
     used = set()
@@ -784,9 +801,11 @@ def is_transport_of(t, src):
     return t == src
 
 
-def c06(rep, W, rule="C06"):
+def c06_accum(rep, W, rule="C06", modules=("add_version", "add_snapshot")):
+    """The body handed to the operation is the request's payload stream, accumulated whole, in order, to its end.  Composed by
+    every property that says what is *stored* is what was *submitted* (C02, C11)."""
     # 1. write handlers: accumulation loop (in the handler, or in an awaited workspace helper that returns its accumulator)
-    for module in ("add_version", "add_snapshot"):
+    for module in modules:
         hbody = W.handler(module)
         fn = S.short_fn(hbody)
         acc, why = H.find_accumulation(W, module)
@@ -854,6 +873,10 @@ def c06(rep, W, rule="C06"):
         rep.ob(rule + ".ACCUM", (fn, "op-gets-accumulated-bytes"), True,
                "payload passed to Server::%s is %s (the accumulator%s; to_vec / clone are identity transports)" % (
                    WD.HANDLER_OP[module], P.show(acc.payload)[:80], "" if acc.helper is None else " returned by " + acc.helper[0].split("::")[-1]), where(hbody), nontrivial=False)
+
+
+def c06(rep, W, rule="C06"):
+    c06_accum(rep, W, rule)
     # 2. Ops pass the payload parameter to storage unchanged (S-CAS iv / C10.W do this; repeat cheaply)
     av = W.op("add_version")
     sites_ = S.sites_of(av, WD.tm("add_version"))
